@@ -88,8 +88,11 @@ class Ctx:
     # ------------------------------------------------------------------ finish
     def finish(self, explanation, trusted_base=None, level='other'):
         known = load_known(self.prop)
-        # floors
-        for rule, floor in self.floors.items():
+        any_new = any((not i['ok']) and not (known.get(i['key'], {}).get('status') == 'open')
+                      for i in self.instances)
+        # floors (a run that reports a violation is never turned into a checker error by a floor:
+        # the construct a violated rule is about may legitimately be absent)
+        for rule, floor in ([] if any_new else list(self.floors.items())):
             n = sum(1 for i in self.instances if i['rule'] == rule)
             failing = sum(1 for i in self.instances if i['rule'] == rule and not i['ok'])
             # a rule that reports a violation has matched the construct it is about; the floor only
